@@ -20,6 +20,12 @@ jobs.json = {"so": path, "jobs": [ {"id":…, "engines":[option, …], "scripts"
        (the CALLER edits its RDScript object k after a run; reports the seed stored in the last trajectory's script)
      | {"obj":i,"call":"simulate_long","script":k,"wall":seconds}
        (calibrates the step rate, then runs simulate_script on a copy of script k whose t_max needs about `wall` seconds)
+     | {"obj":i,"call":"temp"}   (a throw-away engine object on the same library is created, dropped and garbage-collected)
+     | {"obj":i,"call":"drop"}   (engine object i loses its last reference and is garbage-collected; "new" re-creates it)
+     | {"obj":i,"call":"roundtrip","script":k,"to":m,"route":"dict"|"file"|"traj_dict"|"traj_file"}
+       (script m := script k — or the script stored in the last trajectory — after rdscript_to_dict/from_dict or save/load)
+     drive: "via":"iterate_n" drives by iterate_n(1) instead of iterate()
+  scripts built without a seed (rng_seed None): the harness never reads rng_seed before setup / simulate_script
   setup / simulate also report "script_changed": the fields of the caller's RDScript that differ after the call
   setup / simulate also report "init": what was handed to engineexport_initialize_{grid,graph} (observed by wrapping the
   library call: the counts, the length of every buffer against the count passed alongside, and the native return code)
@@ -117,6 +123,14 @@ def main():
         return v
 
     def build_script(S):
+        sc = build_script0(S)
+        try:
+            sc._verif_noseed = ("rng_seed" not in S["kw"]) or S["kw"]["rng_seed"] is None
+        except Exception:  # noqa
+            pass
+        return sc
+
+    def build_script0(S):
         kw = dict(S["kw"])
         seed_as = kw.pop("__seed_as__", None)
         from_dict = kw.pop("__from_dict__", False)
@@ -144,6 +158,7 @@ def main():
     def script_fp(sc):
         """what the caller can see of its script object (a call on an engine must not change any of it)"""
         fp = {}
+        noseed = getattr(sc, "_verif_noseed", False)
         for name, f in (("units_system", lambda: [sc.units_system.space, sc.units_system.time, sc.units_system.quantity]),
                         ("rng_seed", lambda: sc.rng_seed),
                         ("t_sample", lambda: [[float(v) for v in sc.t_sample.value], str(sc.t_sample.units)]),
@@ -152,6 +167,8 @@ def main():
                         ("init_state_processing", lambda: sc.init_state_processing),
                         ("state", lambda: hashlib.sha1(np.ascontiguousarray(np.asarray(sc.system.state.value, dtype=float)).tobytes()).hexdigest()
                                           + str(sc.system.state.units))):
+            if name == "rng_seed" and noseed:
+                continue          # a seed that was never given must not be read by the harness before the run
             try:
                 fp[name] = f()
             except Exception as ex:  # noqa
@@ -179,19 +196,55 @@ def main():
         last_out = None
         for ci, c in enumerate(job["calls"]):
             out("B", "%s %d" % (job["id"], ci))
-            e = engines[c["obj"]]
-            lib = e._lib
-            lib.engineexport_get_time.restype = ctypes.c_double
             t0 = time.time()
             res = {"job": job["id"], "i": ci}
+            if c["call"] in ("temp", "drop"):
+                import gc
+                try:
+                    if c["call"] == "temp":
+                        tmp = mk(job["engines"][c["obj"]])
+                        del tmp
+                    else:
+                        engines[c["obj"]] = None
+                    gc.collect()
+                    res["ret"] = None
+                except Exception as ex:  # noqa
+                    res["raised"] = type(ex).__name__ + ": " + str(ex)[:200]
+                res["wall"] = round(time.time() - t0, 4)
+                out("R", res)
+                continue
+            e = engines[c["obj"]]
+            if e is None:
+                e = engines[c["obj"]] = mk(job["engines"][c["obj"]])
+            lib = e._lib
+            lib.engineexport_get_time.restype = ctypes.c_double
             try:
                 k = c["call"]
-                if k == "setup":
+                if k == "roundtrip":
+                    import tempfile, shutil
+                    from strengths.rdscript import rdscript_to_dict, rdscript_from_dict, save_rdscript, load_rdscript
+                    route = c.get("route", "dict")
+                    src = last_out.script if route.startswith("traj") else scripts[c["script"]]
+                    if route in ("dict", "traj_dict"):
+                        new = rdscript_from_dict(json.loads(json.dumps(rdscript_to_dict(src))))
+                    else:
+                        d = tempfile.mkdtemp(prefix="life_rt_")
+                        try:
+                            pth = d + "/script.json"
+                            save_rdscript(src, pth)
+                            new = load_rdscript(pth)
+                        finally:
+                            shutil.rmtree(d, ignore_errors=True)
+                    scripts[c["to"]] = new
+                    res["ret"] = {"time_step": str(new.time_step), "t_max": str(new._t_max), "sampling_interval": str(new.sampling_interval),
+                                  "seed": new.rng_seed, "src_time_step": str(src.time_step), "src_t_max": str(src._t_max),
+                                  "src_sampling_interval": str(src.sampling_interval)}
+                elif k == "setup":
                     si = c["script"]
                     if si not in scripts:
                         scripts[si] = build_script(job["scripts"][si])
                     sc = scripts[si]
-                    meta = {"seed": sc.rng_seed}
+                    meta = {"seed": (None if getattr(sc, "_verif_noseed", False) else sc.rng_seed)}
                     try:
                         us = sc.units_system.copy()
                         if e._requires_molecules:
@@ -330,8 +383,9 @@ def main():
                     size = c.get("size", 0)
                     buf = (ctypes.c_double * max(size, 1))()
                     n = 0
+                    via_n = c.get("via") == "iterate_n"
                     while n < c["max"]:
-                        u = bool(e.iterate())
+                        u = bool(e.iterate_n(1)) if via_n else bool(e.iterate())
                         n += 1
                         U.append(u)
                         C.append(bool(e.is_complete()))
@@ -361,7 +415,8 @@ def main():
             out("R", res)
         # leave the library clean for the next job of this child
         if live:
-            engines[0]._lib.engineexport_finalize()
+            alive = [x for x in engines if x is not None] or [mk(job["engines"][0])]
+            alive[0]._lib.engineexport_finalize()
         out("J", str(job["id"]))
 
 
